@@ -15,7 +15,7 @@ struct NumCase {
 
 struct Outcome {
   std::string label;
-  long double lib = 0; Q ref; double err = 0; double errab = -1;        // err in units of eps(Scalar)*ref.m
+  long double lib = 0; Q ref; double err = 0; double errab = -1; bool finding_cell = false;        // err in units of eps(Scalar)*ref.m
   int status = 0;                                    // 0 ok, 1 violation, 2 known finding (as-built form matches, property form does not), 3 skipped
   std::string finding;                               // known-finding key for status 2
   std::string note;
